@@ -354,6 +354,14 @@ func pool(handler bool, workers int, outcomes []string, producers int, raceAdd b
 // cleanup: every cleanup function accepted before shutdown runs exactly once
 // during shutdown, whatever its siblings do; errors surface through Wait.
 func cleanup(outcomes []string, early []bool, ncpu int) vs.Scenario {
+	return cleanupMode(outcomes, early, ncpu, "")
+}
+
+// mode "no-quiesce": the jobs are added and the service closed right after
+// Start (its Run may not have read anything yet, or not even started);
+// mode "race-add": the last job is added by another thread concurrently with
+// Close - if the queue accepted it, it runs.
+func cleanupMode(outcomes []string, early []bool, ncpu int, mode string) vs.Scenario {
 	return func() (func(), func(*vs.End) (string, string)) {
 		jobs := make([]*job, len(outcomes))
 		var waitErr error
@@ -372,19 +380,34 @@ func cleanup(outcomes []string, early []bool, ncpu int) vs.Scenario {
 					jobs[i].accepted = q.Add(mkJob(i, outcomes[i], jobs[i])) == nil
 				}
 			}
-			vs.Quiesce()
+			if mode != "no-quiesce" {
+				vs.Quiesce()
+			}
+			fin := make(chan struct{}, 1)
+			racer := -1
 			for i := range outcomes {
 				if !early[i] {
 					jobs[i] = &job{}
+					if mode == "race-add" && i == len(outcomes)-1 {
+						racer = i
+						go func() {
+							jobs[i].accepted = q.Add(mkJob(i, outcomes[i], jobs[i])) == nil
+							fin <- struct{}{}
+						}()
+						continue
+					}
 					jobs[i].accepted = q.Add(mkJob(i, outcomes[i], jobs[i])) == nil
 				}
 			}
 			closeAt = vs.Now()
 			s.Close()
 			waitErr = s.Wait()
+			if racer >= 0 {
+				<-fin
+			}
 		}
 		check := func(e *vs.End) (string, string) {
-			where := fmt.Sprintf("cleanup outcomes=%v early=%v ncpu=%d", outcomes, early, ncpu)
+			where := fmt.Sprintf("cleanup outcomes=%v early=%v ncpu=%d mode=%s", outcomes, early, ncpu, mode)
 			if t, d := endTag(e); t != "" {
 				return t, where + ": " + d
 			}
@@ -522,6 +545,13 @@ func build(tier string) ([]runner.Instance, time.Duration) {
 		for _, oc := range combos(outs, n) {
 			for _, early := range bools(n) {
 				add("cleanup", fmt.Sprintf("cleanup/%v,early=%v", oc, early), bound, cleanup(oc, early, 2))
+			}
+		}
+	}
+	for _, mode := range []string{"no-quiesce", "race-add"} {
+		for n := 1; n <= 2; n++ {
+			for _, oc := range combos([]string{"ok", "error"}, n) {
+				add("cleanup", fmt.Sprintf("cleanup/%s/%v", mode, oc), bound+1, cleanupMode(oc, make([]bool, n), 2, mode))
 			}
 		}
 	}
